@@ -371,6 +371,14 @@ def main():
                        "Python source lines (the regex engine) by wall clock: packet families of growing size run in a subprocess with a hard timeout",
                        "the driver decodes utf-8 / latin-1 / ascii exactly; mutated collation bytes outside that set are skipped at the parser level"]
     chk.tie(["MimicProps.C07"])
+    # the cost probe runs FIRST, in a subprocess with a hard timeout: a packet that blocks the interpreter (catastrophic
+    # regex backtracking) would otherwise hang this process in the in-process parts below
+    n_before = len(chk.failures)
+    cost_probe(chk)
+    if len(chk.failures) > n_before:
+        chk.notes.append("the in-process parts were skipped: the cost probe found a packet that blocks the event loop")
+        chk.finish()
+        return
     chk.run_replays(["D7"])
     rng = random.Random(chk.seed)
     meter = Meter()
@@ -380,7 +388,6 @@ def main():
         asyncio.run(connection_level(chk, rng, meter, quick))
     finally:
         meter.close()
-    cost_probe(chk)
     model = drive(lines)      # dict semantics of the connect attributes are part of the model (Packets.connectAttrs)
     chk.compare("real parsers vs Mimic.Packets / Mimic.Params on mutated payloads", lines, model, impl)
     chk.finish()
